@@ -2,7 +2,7 @@
    ExtrOcamlBasic only: bool, option, unit, list, prod, sumbool, comparison map
    to OCaml natives; nat, N, Z, positive stay extracted inductives. *)
 Require Import Extraction ExtrOcamlBasic.
-From Xeh Require Import Model.Prelude Model.Bits Model.Codec Model.Cell Model.Lexer Model.Fmt Model.Vm Model.Words Model.Build Model.Struct Model.Boot Model.F64c Model.F64.
+From Xeh Require Import Model.Prelude Model.Bits Model.Codec Model.Store Model.Cell Model.Lexer Model.Fmt Model.Vm Model.Words Model.Build Model.Struct Model.Boot Model.F64c Model.F64.
 Extraction Language OCaml.
 Separate Extraction
   Bits.wfb Bits.abs Bits.bits Bits.iter8 Bits.seek Bits.read Bits.peek Bits.substr Bits.split_at
@@ -20,4 +20,5 @@ Separate Extraction
   Vm.set_out Vm.data_depth Vm.is_running Vm.dict_entry
   Words.native_fn Words.w_open_bitstr Words.R_OUTPUT
   Build.eval Build.compile Struct.seval_source
+  Store.pool_step Store.pool_view
   Boot.boot Boot.fops_with F64.flocq_fops F64c.f64_of_int F64c.f64_to_int F64c.f64_round F64c.f32_to_f64 F64c.f64_to_f32.
